@@ -307,6 +307,10 @@ func want(name string) string {
 // perElementLoopOK: exit x of fn is only reachable after a full-range loop
 // over `over` in which every iteration passed ok(callee(... element ...)).
 func perElementLoopOK(P *Prog, fn *ssa.Function, x *exitInfo, over *Term, callee *ssa.Function) string {
+	return perElementLoopOKd(P, fn, x, over, callee, 0)
+}
+
+func perElementLoopOKd(P *Prog, fn *ssa.Function, x *exitInfo, over *Term, callee *ssa.Function, depth int) string {
 	if callee == nil {
 		return "per-element callee not found"
 	}
@@ -317,6 +321,50 @@ func perElementLoopOK(P *Prog, fn *ssa.Function, x *exitInfo, over *Term, callee
 		}
 	}
 	if L == nil {
+		// the loop may live in a helper that receives the list: the exit must
+		// hold the helper's success and every non-failure exit of the helper
+		// must satisfy the rule for its parameter
+		if depth < 3 {
+			for _, ci := range callsIn(fn, nil) {
+				h := staticCallee(ci)
+				if h == nil || !P.inPkg(h) || h == callee || ci.Value() == nil {
+					continue
+				}
+				k := -1
+				for i, a := range ci.Common().Args {
+					if P.terms.of(a).eq(over) {
+						k = i
+					}
+				}
+				if k < 0 {
+					continue
+				}
+				if hei := errIndex(h); hei >= 0 {
+					errV := P.terms.of(ci.Value())
+					if h.Signature.Results().Len() > 1 {
+						errV = &Term{Op: "res", S: strconv.Itoa(hei), Args: []*Term{errV}}
+					}
+					if !x.facts.has(okFact(errV)) {
+						continue
+					}
+				} else if !ci.Block().Dominates(x.ret.Block()) {
+					continue
+				}
+				why := ""
+				for _, hx := range P.factsOf(h).exits {
+					if hx.kind == exitFailure {
+						continue
+					}
+					if w := perElementLoopOKd(P, h, hx, T("param", strconv.Itoa(k)), callee, depth+1); w != "" {
+						why = w
+					}
+				}
+				if why == "" {
+					return ""
+				}
+				return "in helper " + shortFn(h) + ": " + why
+			}
+		}
 		return "no loop ranges over " + over.String()
 	}
 	if !(L.kind == "slice-range" || L.kind == "counted") || !L.fullRange {
